@@ -35,6 +35,7 @@ type Meta struct {
 	Nontrivial map[string]int         `json:"distinct_nontrivial"`
 	Samples    map[string]interface{} `json:"samples"`
 	Exhaustive bool                   `json:"exhaustive"`
+	Ties       []string               `json:"ties_broken"`
 }
 
 type Out struct {
